@@ -164,6 +164,9 @@ func runJob(t *testing.T, job *Job) (res *Result) {
 		}
 		if job.Trace {
 			res.Labels = tape.labels
+			if os.Getenv("BSIM_PARKED") != "" {
+				res.Extra = map[string]any{"parked": r.parkedLog}
+			}
 		}
 	}
 	if job.Trace && r.s != nil {
